@@ -408,6 +408,12 @@ void run_copies(RunCtx& cx) {
     // ---- the source block --------------------------------------------------------------------------------
     bool from_reader = r.coin();
     unsigned nrec = (unsigned)r.range(1, 12);
+    // a block may hold table entries and statistics but no record yet (a template block; a snapshot taken between add_ip_address()
+    // and the record that will refer to it)
+    const bool tables_only = r.chance(1, 6);
+    if (tables_only) { from_reader = false; nrec = 0; }
+    // a block read from a producer that does not de-duplicate its tables holds equal entries (legal); a copy holds them too
+    const bool dup_source = r.chance(1, 4);
     std::vector<uint64_t> rec_seeds;
     for (unsigned i = 0; i < nrec; i++) rec_seeds.push_back(r.next());
     auto fill = [&](CDNS::CdnsBlock& b) {
@@ -422,6 +428,7 @@ void run_copies(RunCtx& cx) {
     };
     static const char* HOW[] = {"copy-ctor", "move-ctor", "copy-assign", "move-assign", "blockread-copy-ctor", "blockread-move-ctor", "blockread-copy-assign", "reader-return-assign"};
     unsigned how = (unsigned)r.below(8);
+    if (tables_only && how >= 4) how = (unsigned)r.below(4);
     if (how >= 4) from_reader = true;
     static const char* FATE[] = {"kept", "modified", "cleared", "destroyed"};
     unsigned fate = (unsigned)r.below(4);
@@ -431,6 +438,7 @@ void run_copies(RunCtx& cx) {
     if (cx.describe) cx.description = std::string("source ") + (from_reader ? "read from a file" : "built") + " with " + std::to_string(nrec) + " records; second block by " + HOW[how] + "; source then " + FATE[fate] + "; ops on the copy:";
     cx.log.ev(std::string("PLAN ") + HOW[how] + " " + FATE[fate]);
 
+    bool source_has_dups = false;
     std::unique_ptr<CDNS::CdnsBlock> src;
     std::unique_ptr<CDNS::CdnsBlockRead> rsrc;
     std::unique_ptr<CDNS::CdnsBlock> cpy;
@@ -447,6 +455,13 @@ void run_copies(RunCtx& cx) {
         }
         file_bytes = F.get("/sim/c19-src");
         F.dir.erase("/sim/c19-src");
+        if (dup_source) {
+            try {
+                ref::Node root = ref::Decoder(file_bytes).parse_all();
+                Rng q(mix_str(cx.seed, "dup-source"));
+                if (ref::duplicate_table_entries(root, q)) { file_bytes = ref::encode_preferred(root); source_has_dups = true; cx.tag("source-with-duplicate-table-entries"); cx.ctr->add("probe.copy_of_block_with_duplicate_table_entries"); }
+            } catch (std::exception&) {}
+        }
     }
     std::istringstream is(file_bytes);
     std::unique_ptr<CDNS::CdnsReader> reader;
@@ -468,8 +483,31 @@ void run_copies(RunCtx& cx) {
     } else {
         src.reset(new CDNS::CdnsBlock(sets[0], 0));
         fill(*src);
+        if (tables_only) {
+            Rng q(mix_str(cx.seed, "tables-only"));
+            unsigned n = (unsigned)q.range(1, 6);
+            for (unsigned i = 0; i < n; i++) {
+                src->add_ip_address("tab-ip-" + std::to_string(q.below(4)));
+                src->add_name_rdata("tab-name-" + std::to_string(q.below(4)));
+                CDNS::ClassType ct; ct.type = (uint16_t)q.below(3); ct.class_ = 1; src->add_classtype(ct);
+            }
+            if (q.coin()) { gen::RecGen g(sw, q.next()); src->m_block_statistics = g.stats(0); }
+            cx.tag("source-without-records");
+            cx.ctr->add("probe.copy_of_block_without_records");
+        }
     }
     CDNS::CdnsBlock* S = rsrc ? rsrc.get() : src.get();
+    // what the tables of the source hold, entry by entry (compared with the copy's below)
+    auto table_image = [](CDNS::CdnsBlock& b) {
+        std::string s;
+        for (CDNS::index_t i = 0; i < b.m_ip_address.size(); i++) s += "i" + hex(b.get_ip_address(i)) + ",";
+        for (CDNS::index_t i = 0; i < b.m_name_rdata.size(); i++) s += "n" + hex(b.get_name_rdata(i)) + ",";
+        for (CDNS::index_t i = 0; i < b.m_classtype.size(); i++) s += "c" + model::ct_str(b.get_classtype(i)) + ",";
+        s += "|" + std::to_string(b.m_qr_sig.size()) + "/" + std::to_string(b.m_qlist.size()) + "/" + std::to_string(b.m_qrr.size()) + "/" + std::to_string(b.m_rrlist.size()) + "/" + std::to_string(b.m_rr.size()) + "/" +
+             std::to_string(b.m_malformed_message_data.size()) + (b.m_block_statistics ? "|stats" : "|-");
+        return s;
+    };
+    std::string want_tables = S ? table_image(*S) : std::string();
     std::string want;
     bool want_full = false;   // (max_block_items is 10000 here)
     if (S) { want = block_content(*S, sets, "want", cx); want_full = S->full(); }
@@ -575,6 +613,13 @@ void run_copies(RunCtx& cx) {
     // ---- operations on the copy (ops of the plan) --------------------------------------------------------------
     std::string got = block_content(*C, sets, "got", cx);
     if (got != want) cx.violation("C19", std::string("C19/I28/copy-content-differs/") + HOW[how], std::string("block obtained by ") + HOW[how] + " serialises differently from its source (source then " + FATE[fate] + ")");
+    if (S == nullptr && want_tables.empty()) {}   // (how == 7: no source object to compare with)
+    else if (!want_tables.empty()) {
+        std::string got_tables = table_image(*C);
+        if (got_tables != want_tables)
+            cx.violation("C19", std::string("C19/I28/copy-tables-differ/") + HOW[how], std::string("the block tables / statistics of the block obtained by ") + HOW[how] + " differ from its source's" +
+                                                                                        (tables_only ? " (source without records)" : "") + ": " + got_tables.substr(0, 160) + " vs " + want_tables.substr(0, 160));
+    }
     // a CdnsBlockRead obtained from another one delivers every record from the start, like a block freshly read from the file
     if (rcpy && !file_bytes.empty()) {
         std::istringstream is3(file_bytes);
@@ -652,9 +697,9 @@ void run_copies(RunCtx& cx) {
                     break;
                 }
                 case 4: {   // a whole record through the generic API (all tables: find + add)
-                    gen::RecGen g(sw, rec_seeds[q.below(rec_seeds.size())]);
+                    gen::RecGen g(sw, rec_seeds.empty() ? q.next() : rec_seeds[q.below(rec_seeds.size())]);
                     C->add_question_response_record(g.qr(tps));
-                    if (have_twin) twin.add_question_response_record(gen::RecGen(sw, rec_seeds[0]).qr(tps)), have_twin = false;
+                    if (have_twin && !rec_seeds.empty()) twin.add_question_response_record(gen::RecGen(sw, rec_seeds[0]).qr(tps)), have_twin = false;
                     what = "add record";
                     break;
                 }
@@ -686,7 +731,7 @@ void run_copies(RunCtx& cx) {
     // the copy still serialises to a valid block
     std::string fin = block_content(*C, sets, "final", cx);
     if (fin.compare(0, 9, "<invalid:") == 0) cx.violation("C19", std::string("C19/I28/copy-serialises-invalid/") + HOW[how], fin);
-    if (fin.find(" DUP:") != std::string::npos) cx.violation("C19", std::string("C19/I28/copy-has-duplicate-entries/") + HOW[how], fin.substr(fin.find(" DUP:"), 200));
+    if (!source_has_dups && fin.find(" DUP:") != std::string::npos) cx.violation("C19", std::string("C19/I28/copy-has-duplicate-entries/") + HOW[how], fin.substr(fin.find(" DUP:"), 200));
     cpy.reset();
     rcpy.reset();
     src.reset();
@@ -1058,12 +1103,88 @@ void run_direct_blocks(RunCtx& cx) {
     F.log = nullptr;
 }
 
+// C04, second mode: an application-managed block under a parameter set with a non-zero index is filled, written with
+// write_block(block), cleared and filled again (several rounds). Every block in the file states that set, and nothing its hints
+// exclude is in it.
+void run_reused_block_hints(RunCtx& cx) {
+    Rng r(mix_str(cx.seed, "reused-block"));
+    gen::Swarm sw = gen::swarm(cx.seed, gen::P_HINTS);
+    while (sw.sets.size() < 2) sw.sets.push_back(gen::block_parameters(r, false));
+    for (auto& bp : sw.sets) bp.storage_parameters.max_block_items = 10000;
+    std::vector<CDNS::BlockParameters> sets = sw.sets;
+    unsigned idx = 1 + (unsigned)r.below(sets.size() - 1);
+    // make sure set 0 and the set in use differ in what they exclude
+    sets[0].storage_parameters.storage_hints.query_response_hints = ~sets[idx].storage_parameters.storage_hints.query_response_hints & 0x3ffff;
+    sets[0].storage_parameters.storage_hints.other_data_hints = (uint8_t)(~sets[idx].storage_parameters.storage_hints.other_data_hints & 3);
+    simfs::FS& F = simfs::fs();
+    F.reset();
+    F.log = &cx.log;
+    uint64_t tps = sets[idx].storage_parameters.ticks_per_second;
+    unsigned rounds = (unsigned)r.range(2, 4);
+    cx.n_ops = rounds;
+    cx.tag("reused-block");
+    unsigned written = 0;
+    {
+        CDNS::FilePreamble fp(sets);
+        CDNS::CdnsExporter ex(fp, std::string("/sim/c04-reused"), CDNS::CborOutputCompression::NO_COMPRESSION);
+        CDNS::CdnsBlock blk(sets[idx], idx);
+        for (unsigned k = 0; k < rounds; k++) {
+            if (!cx.kept(k)) continue;
+            unsigned n = (unsigned)r.range(1, 5);
+            for (unsigned i = 0; i < n; i++) {
+                gen::RecGen g(sw, r.next());
+                switch (r.below(4)) {
+                    case 0: case 1: blk.add_question_response_record(g.qr(tps)); break;
+                    case 2: blk.add_address_event_count(g.aec()); break;
+                    default: blk.add_malformed_message(g.mm(tps)); break;
+                }
+            }
+            if (blk.get_item_count() > 0) { ex.write_block(blk); written++; }
+            blk.clear();
+        }
+    }
+    cx.log.ev("REUSED-BLOCK set " + std::to_string(idx) + " of " + std::to_string(sets.size()) + " rounds " + std::to_string(rounds) + " written " + std::to_string(written));
+    if (cx.describe) cx.description = "a block under parameter set " + std::to_string(idx) + " of " + std::to_string(sets.size()) + " is filled, written with write_block(block) and cleared, " + std::to_string(rounds) + " times";
+    if (written) {
+        std::string bytes = F.exists("/sim/c04-reused") ? F.get("/sim/c04-reused") : std::string();
+        try {
+            ref::RFile rf = ref::Interp::file(bytes);
+            if (rf.blocks.size() != written) cx.violation("C12", "C12/I10/block-count/reused-block", std::to_string(rf.blocks.size()) + " blocks in the file, " + std::to_string(written) + " written");
+            for (size_t bi = 0; bi < rf.blocks.size(); bi++) {
+                const ref::RBlock& b = rf.blocks[bi];
+                if (b.bp_index != idx) cx.violation("C04", "C04/I04/block-states-other-parameter-set/reused-block", "block " + std::to_string(bi) + " built under parameter set " + std::to_string(idx) + " refers to set " + std::to_string(b.bp_index));
+                size_t si = b.bp_index < sets.size() ? b.bp_index : idx;
+                model::Hints h = model::Hints::of(sets[si]);
+                std::string bad;
+                for (auto& mem : b.members) {
+                    bool ok = true;
+                    if (mem.compare(0, 3, "qr.") == 0 && mem != "qr.rq") ok = (h.qr >> std::stoi(mem.substr(3))) & 1;
+                    else if (mem.compare(0, 4, "sig.") == 0) ok = ((h.sig >> std::stoi(mem.substr(4))) & 1) && ((h.qr >> 4) & 1);
+                    else if (mem.compare(0, 3, "rr.") == 0) ok = (h.rr >> std::stoi(mem.substr(3))) & 1;
+                    if (!ok && bad.empty()) bad = "member " + mem;
+                }
+                if (bad.empty() && b.has_aec_array && !(h.other & 2)) bad = "address events";
+                if (bad.empty() && b.has_mm_array && !(h.other & 1)) bad = "malformed messages";
+                if (!bad.empty()) cx.violation("C04", "C04/I04/excluded-by-the-set-the-block-states/reused-block", "block " + std::to_string(bi) + ": " + bad + " present although the set it refers to (" + std::to_string(si) + ") excludes it");
+                for (auto& d : b.unreachable) cx.violation("C04", "C04/I05/unreachable-table-entry/reused-block", "block " + std::to_string(bi) + ": " + d);
+            }
+            cx.ctr->add("reused_blocks_checked", rf.blocks.size());
+            cx.nontrivial = true;
+        } catch (std::exception& e) {
+            cx.violation("C02", "C02/I02/reused-block-file-invalid", e.what());
+        }
+    }
+    cx.state_key = "reused" + std::to_string(rounds) + "s" + std::to_string(idx) + ",";
+    F.reset();
+    F.log = nullptr;
+}
+
 }  // namespace
 
 void sim::engine_objects(RunCtx& cx) {
     if (cx.prop == "C17") { if (mix_str(cx.seed, "c17-mode") % 3 == 0) run_direct_blocks(cx); else run_timestamps(cx); }
     else if (cx.prop == "C11") run_tables(cx);
-    else if (cx.prop == "C04") run_copied_hints(cx);
+    else if (cx.prop == "C04") { if (mix_str(cx.seed, "c04-mode") % 3 == 0) run_reused_block_hints(cx); else run_copied_hints(cx); }
     else if (cx.prop == "C09") run_preamble_objects(cx);
     else if (cx.prop == "C12" || cx.prop == "C02") run_direct_blocks(cx);
     else run_copies(cx);
